@@ -140,7 +140,7 @@ AnyCRLF(ss) == \E k \in 1..Len(ss) : HasCRLF(ss[k])
 \* ============================== 2. contract ==================================================================
 \* ---- 2a. the registry ------------------------------------------------------------------------------------
 \* docs/exceptions.rst: "The following error classes exist in Werkzeug"; abort(): "If a status code is given, it will be
-\* looked up in the list of exceptions and will raise that exception"; CHANGES 0.9.5: "Fix bug where
+\* looked up in the list of exceptions and will raise that exception"; CHANGES 0.9.7: "Fix bug where
 \* werkzeug.exceptions.abort would raise an arbitrary subclass of the expected class".
 \* A registry is a set of <<code, class>>.  Documented: every listed class that states its own code is the entry of
 \* its code; no code has two entries, no class two codes; an entry's class has that code and is not a mere subclass.
@@ -201,7 +201,7 @@ GoodBody(c) == T_HEAD \o T_TITLE \o CodeText(c) \o <<SP>> \o Escape(c.name) \o T
 Dirty(c) == AnyCRLF(c.arg.vs) \/ HasCRLF(c.arg.units)
 IsToken(m) == m # <<>> /\ Trim(m) = m /\ ~HasC(m, 44) /\ ~HasCRLF(m)
 
-\* Content-Type -- CHANGES 1.0: "Add charset=utf-8 to an HTTP exception response's CONTENT_TYPE header."
+\* Content-Type -- CHANGES 1.0.0: "Add charset=utf-8 to an HTTP exception response's CONTENT_TYPE header."
 C_ContentType(o) == LET vs == ValuesOf(o.headers, H_CT) IN
   Len(vs) = 1 /\ IsPrefixOf(V_TEXTHTML, LowerT(vs[1])) /\ Contains(LowerT(vs[1]), V_CHARSET)
 \* docs/exceptions.rst: "abort with ``400 BAD REQUEST``"; HTTPException.name: "The status name."
@@ -236,8 +236,8 @@ C_Doctype(c, o) == c.method # "HEAD" => IsPrefixOf(T_HEAD, o.body)
 \* test_response_body: f"{exc.code} {escape(exc.name)}" in body; module docstring: "trigger a standard HTTP non-200 response"
 C_BodyName(c, o) == c.method # "HEAD" => Contains(o.body, CodeText(c) \o <<SP>> \o Escape(c.name))
 \* docs/exceptions.rst: "You can override the default description in the constructor with the ``description`` parameter";
-\* CHANGES 0.8: "The description field of HTTP exceptions is now always escaped.  Use markup objects to disable that.";
-\* 2.0.2: "If ``HTTPException.description`` is not a string, ``get_description`` will convert it to a string."
+\* CHANGES 0.9: "The description field of HTTP exceptions is now always escaped.  Use markup objects to disable that.";
+\* 2.0.1: "If ``HTTPException.description`` is not a string, ``get_description`` will convert it to a string."
 \* Line by line, because what a line break becomes is not documented.
 C_DescriptionShown(c, o) == c.method # "HEAD" =>
   LET ls == LinesOf(DescText(c)) IN \A k \in 1..Len(ls) : Contains(o.body, IF IsMarkup(c) THEN ls[k] ELSE Escape(ls[k]))
